@@ -69,7 +69,7 @@ Definition op_sxg_header_integrity (args : list sx) : sx :=
 Definition op_sxg_write (args : list sx) : sx :=
   match args with
   | [e] => match exchange_of_sx e with
-           | Some e => sx_bytes_R (write e)
+           | Some e => if write_taint e then unknown_sx else sx_bytes_R (write e)
            | None => bad_args end
   | _ => bad_args
   end.
@@ -153,6 +153,40 @@ Definition op_sxg_verify (args : list sx) : sx :=
       end
   | _ => bad_args
   end.
+
+(* sxg_verdict_roundtrip e tsec tnsec statusknown fetchtab x509tab sigtab : C02's last clause
+   evaluated on the implementation itself: Verify in memory, Write, ReadExchange, Verify
+   again.  Output (written? verdict-before verdict-after). *)
+Definition op_sxg_verdict_roundtrip (args : list sx) : sx :=
+  match args with
+  | [e; SZ tsec; SZ tnsec; SZ sk; SL ft; SL xt; SL st] =>
+      match exchange_of_sx e with
+      | Some e =>
+          let vf := fun x => verify sha256 (x509_of xt) (sig_of st) (fun _ => negb (sk =? 0)%Z) (fetch_of ft) x tsec tnsec in
+          let v1 := verdict_sx (vf e) in
+          if write_taint e || sx_eqb v1 unknown_sx then unknown_sx else
+          match write e with
+          | Ok bs =>
+              match read bs with
+              | Ok e' => if e_taint e' then unknown_sx else
+                         let v2 := verdict_sx (vf e') in
+                         if sx_eqb v2 unknown_sx then unknown_sx else SL [sym "written"; v1; v2]
+              | _ => SL [sym "unreadable"; v1]
+              end
+          | _ => SL [sym "refused"; v1]
+          end
+      | None => bad_args
+      end
+  | _ => bad_args
+  end.
+(* the property-level judge: the implementation agrees with the model AND the two verdicts agree *)
+Definition judge_verdict_roundtrip (args : list sx) (impl : sx) : bool :=
+  sx_eqb (op_sxg_verdict_roundtrip args) impl
+  && match impl with
+     | SL [t; v1; v2] => sx_eqb v1 v2
+     | SL [t; v1] => tag_is t "refused"
+     | _ => false
+     end.
 
 (* sxg_read_verify bytes tsec tnsec statusknown-list((code 0/1)...) fetchtab x509tab sigtab *)
 Definition op_sxg_read_verify (args : list sx) : sx :=
@@ -244,12 +278,13 @@ Definition op_sxg_history (args : list sx) : sx :=
   match args with
   | [e; SL acts] =>
       match exchange_of_sx e with
-      | Some e' => run_history (S (List.length acts)) e' acts []
+      | Some e' => if write_taint e' then unknown_sx else run_history (S (List.length acts)) e' acts []
       | None => bad_args
       end
   | _ => bad_args
   end.
 
+Definition is_undecided (m : sx) : bool := sx_eqb m unknown_sx.
 (* sxg_read_verify_history bytes tsec tnsec statustab fetchtab x509tab sigtab:
    ReadExchange, Verify, Verify again, Write.  Verify must not change the exchange. *)
 Definition op_sxg_read_verify_history (args : list sx) : sx :=
@@ -259,7 +294,7 @@ Definition op_sxg_read_verify_history (args : list sx) : sx :=
       | Ok e =>
           let known := fun code => existsb (fun s => match s with SL [SZ c; SZ b] => (c =? code)%Z && negb (b =? 0)%Z | _ => false end) sk in
           let v := verdict_sx (verify sha256 (x509_of xt) (sig_of st) known (fetch_of ft) e tsec tnsec) in
-          if e_taint e then unknown_sx else SL [v; v; sx_bytes_R (write e)]
+          if e_taint e || is_undecided v then unknown_sx else SL [v; v; sx_bytes_R (write e)]
       | _ => SL [sym "invalid"]
       end
   | _ => bad_args
@@ -282,7 +317,6 @@ Definition op_url (args : list sx) : sx :=
   end.
 
 (* (undecided) on the model side: the case is outside the model's decided domain *)
-Definition is_undecided (m : sx) : bool := sx_eqb m unknown_sx.
 
 Definition dispatch_sxg (op : bytes) (args : list sx) : option sx :=
   if bytes_eqb op (s2b "sxg_headers") then Some (op_sxg_headers args)
@@ -296,6 +330,7 @@ Definition dispatch_sxg (op : bytes) (args : list sx) : option sx :=
   else if bytes_eqb op (s2b "sxg_read_verify") then Some (op_sxg_read_verify args)
   else if bytes_eqb op (s2b "sxg_read_edit_verify") then Some (op_sxg_read_edit_verify args)
   else if bytes_eqb op (s2b "sxg_history") then Some (op_sxg_history args)
+  else if bytes_eqb op (s2b "sxg_verdict_roundtrip") then Some (op_sxg_verdict_roundtrip args)
   else if bytes_eqb op (s2b "sxg_read_verify_history") then Some (op_sxg_read_verify_history args)
   else if bytes_eqb op (s2b "bigendian") then Some (op_bigendian args)
   else if bytes_eqb op (s2b "url") then Some (op_url args)
